@@ -166,6 +166,12 @@ fn slider_driver(ctx: &RunCtx, stats: &mut Stats, rep: &mut Reporter) {
                 }
                 // (a) no other bits, (b) all irrelevant bits, (c) k random irrelevant patterns
                 let mut variants = vec![occ, occ | !rel_mask, occ | self_bit];
+                // (e) every single irrelevant bit on its own (sparse patterns, which random 64-bit words never are)
+                let mut rest = !rel_mask & !self_bit;
+                while rest != 0 {
+                    variants.push(occ | (rest & rest.wrapping_neg()));
+                    rest &= rest - 1;
+                }
                 for _ in 0..k {
                     rng = splitmix(rng);
                     variants.push(occ | (rng & !rel_mask));
@@ -399,7 +405,7 @@ pub fn property() -> Property {
         rule: "Exhaustive through the read-only hooks: king/knight/pawn tables for all 64 squares (x2 colours) against offset geometry; \
                alignment predicates for all 4,096 ordered pairs and between sets for all aligned pairs and a == b; sliders: for every \
                square every subset of the relevant blocker squares (107,648 subsets in total), each with (a) no other bit, (b) all \
-               irrelevant bits set, (c) own square set, (d) k random irrelevant patterns (k = 16 quick, 128 thorough), against ray walking; \
+               irrelevant bits set, (c) own square set, (d) k random irrelevant patterns (k = 16 quick, 128 thorough), (e) every single irrelevant bit on its own, against ray walking; \
                plus generated random 64-bit occupancies; and the same subsets for bishop, rook and queen (6,946,816 queen subsets) built as \
                valid positions (blockers = knights of both colours, kings off the relevant squares) and read through semilegal/legal move \
                generation, cell_attackers and is_cell_attacked. Non-trivial = slider case with >= 1 blocker / aligned pair / square; distinct by \
